@@ -67,7 +67,7 @@ def lift_contract(kind):
             def __new__(cls, cs, tt):
                 return field(*cs, tt, coef=coef)
 
-        exp = total_derivatives(g, list(coords), t, lift)
+        exp = total_derivatives(g, list(coords)[: order + lift], t, lift)  # surplus coefficients must be ignored
         cl = [holds("number_of_outputs", jnp.asarray(len(outs) == lift + 1)),
               holds("lifted_order_bookkeeping", nargs == order + lift)]
         if kind == "ode":
@@ -82,13 +82,14 @@ def lift_contract(kind):
             fam = [(1, 2, 1, 1), (1, 2, 2, 2), (1, 2, 3, 1), (2, 2, 2, 1)]
         if tier == "thorough":
             fam += [(1, 3, 1, 3), (1, 2, 1, 5), (2, 2, 2, 2), (1, 3, 2, 3), (1, 2, 1, 4)]
+        fam = [f + (0,) for f in fam] + [(1, 2, 1, 1, 1), (1, 2, 2, 0, 2)]  # last entry: surplus coefficients supplied
         out = []
-        for m, D, order, lift in fam:
-            def make(rng, m=m, D=D, order=order, lift=lift):
+        for m, D, order, lift, surplus in fam:
+            def make(rng, m=m, D=D, order=order, lift=lift, surplus=surplus):
                 _, nm = poly_field(m, D, order)
-                ncoords = order + lift
+                ncoords = order + lift + surplus
                 return (jnp.asarray(rng.normal(size=(m, nm))), tuple(jnp.asarray(rng.normal(size=(m,))) for _ in range(ncoords)), jnp.asarray(rng.normal())), {"m": m, "D": D, "order": order, "lift": lift}
-            out.append(Instance(f"m={m},D={D},order={order},lift={lift}", make, names=lambda a, k: {id(a[0]): "coef", id(a[2]): "t", **{id(x): f"c{i}" for i, x in enumerate(a[1])}}))
+            out.append(Instance(f"m={m},D={D},order={order},lift={lift}" + (f",surplus={surplus}" if surplus else ""), make, names=lambda a, k: {id(a[0]): "coef", id(a[2]): "t", **{id(x): f"c{i}" for i, x in enumerate(a[1])}}))
         return out
 
     return Contract(name=f"{MOD}:{cls}.jet_lift", module=MOD, qualname=f"{cls}.jet_lift", wrap=wrap, ensures=ensures, instances=instances,
